@@ -81,6 +81,8 @@ def check(run):
 
 
 MUTANTS = [
+    Mutant("reintroduce-dodoer-asap-from-own-tock", M, "DoDoer.recur", "                        retyme = None  # rerun at next recur whenever that is", "                        retyme = tyme + self.tock", {"C03.R4"}, canary=True),
+    Mutant("dodoer-asap-marker-not-resolved", M, "DoDoer.recur", "                if retyme is None:  # rerun asap so base of cumulative retyme is now\n                    retyme = tyme\n", "", {"C03.R3", "C03.R4"}),
     Mutant("doist-due-lt", M, "Doist.recur", "if retyme <= self.tyme:", "if retyme < self.tyme:", {"C03.R3"}, canary=True),
     Mutant("doist-retyme-drift", M, "Doist.recur", "retyme += tock  # cumulative", "retyme = self.tyme + tock  # cumulative", {"C03.R4"}, canary=True),
     Mutant("dodoer-retyme-drift", M, "DoDoer.recur", "retyme += tock  # cumulative", "retyme = tyme + tock  # cumulative", {"C03.R4"}),
@@ -89,7 +91,7 @@ MUTANTS = [
     Mutant("doist-tick-missing", M, "Doist.recur", "        self.tick()  # advance", "        pass  # advance", {"C03.R1"}, canary=True),
     Mutant("doist-first-due-plus-tock", M, "Doist.enter", "deeds.append((dog, self.tyme, doer))", "deeds.append((dog, self.tyme + self.tock, doer))", {"C03.R4"}),
     Mutant("doist-send-retyme", M, "Doist.recur", "tock = dog.send(self.tyme)", "tock = dog.send(retyme)", {"C03.R5"}),
-    Mutant("dodoer-asap-uses-doer-tock", M, "DoDoer.recur", "retyme = tyme + self.tock  # rerun", "retyme = tyme + doer.tock  # rerun", {"C03.R4"}),
+    Mutant("dodoer-asap-uses-doer-tock", M, "DoDoer.recur", "retyme = None  # rerun at next recur whenever that is", "retyme = tyme + doer.tock  # rerun", {"C03.R4"}),
     Mutant("doist-falsy-keeps-retyme", M, "Doist.recur", "retyme = self.tyme + self.tock  # rerun", "retyme = retyme + self.tock  # rerun", {"C03.R4"}),
     Mutant("tymist-tick-assign", "hio.base.tyming", "Tymist.tick", "self.tyme += float(", "self.tyme = float(", {"C03.R1"}),
     Mutant("doist-marker-after", M, "Doist.recur", "        deeds.append((None, None, None))  # append run through once marker\n", "", {"C03.R2"}),
